@@ -733,6 +733,7 @@ type c09World struct {
 	fetched      map[int][][2]int64
 	partial      map[int]bool
 	deletedAfter map[int]bool
+	overwritten  map[int]bool // a failed attempt served an overlapping chunk list for the blob and a chunk of it arrived corrupt
 
 	violated     bool
 	inconclusive bool
@@ -748,7 +749,7 @@ func c09NewWorld(t *testing.T, rep *kit.Report, c *c09Case, base string) (*c09Wo
 		return nil, err
 	}
 	w := &c09World{t: t, rep: rep, c: c, dir: dir, faults: map[int][]*c09Fault{}, syncCh: make(chan string, 16), watchEnd: make(chan struct{}),
-		fetched: map[int][][2]int64{}, partial: map[int]bool{}, deletedAfter: map[int]bool{}, firedAll: map[string]bool{}}
+		fetched: map[int][][2]int64{}, partial: map[int]bool{}, deletedAfter: map[int]bool{}, overwritten: map[int]bool{}, firedAll: map[string]bool{}}
 	if w.cache, err = blob.Open(dir); err != nil {
 		return nil, err
 	}
@@ -1494,6 +1495,10 @@ func (w *c09World) cause(a *c09Attempt, b int) string {
 		return "retry-after-partial-download:" + asked
 	case asked == "ranges-skipped" && w.deletedAfter[b]:
 		return "after-layer-blob-deleted:" + asked
+	case asked == "ranges-skipped" && w.overwritten[b]:
+		// the first pieces of a corrupt chunk are written before its digest check fails; under an
+		// overlapping list they land on a chunk that is already stored, verified and marked
+		return "retry-after-corrupt-chunk-under-overlapping-list:" + asked
 	case w.c.chunked(b) && p.broken() && lists > 0:
 		return "chunk-list-" + p.Kind
 	case w.partial[b]:
@@ -1566,6 +1571,7 @@ func (w *c09World) judge(a *c09Attempt, err error) {
 		for _, b := range c.blobsOf(a.ver) {
 			w.partial[b] = false
 			w.deletedAfter[b] = false
+			w.overwritten[b] = false
 		}
 	} else {
 		w.rep.Count("attempts_failed", 1)
@@ -1587,6 +1593,16 @@ func (w *c09World) judge(a *c09Attempt, err error) {
 			// the failed attempt left a non-empty file that is not the layer
 			if fi, serr := os.Stat(w.cache.GetFile(c.Blobs[b].dig)); serr == nil && fi.Size() > 0 && w.checkBlob(b) != "" {
 				w.partial[b] = true
+			}
+			if k := c.plan(a.st, b).Kind; c.chunked(b) && (k == "overlap" || k == "gap+overlap") {
+				a.mu.Lock()
+				served := a.listReq[b] > 0
+				for _, f := range a.fired {
+					if served && strings.HasPrefix(f, fmt.Sprintf("chunk:%d:", b)) && (strings.HasSuffix(f, "=rotate") || strings.HasSuffix(f, "=corrupt-first") || strings.HasSuffix(f, "=corrupt-last")) {
+						w.overwritten[b] = true
+					}
+				}
+				a.mu.Unlock()
 			}
 		}
 	}
@@ -1617,6 +1633,7 @@ func (w *c09World) doDelete(st *c09Step) {
 		os.Remove(w.cache.GetFile(w.c.Blobs[b].dig))
 		w.fetched[b] = nil
 		w.partial[b] = false
+		w.overwritten[b] = false
 	}
 	w.rep.Count("deletes", 1)
 }
